@@ -10,6 +10,7 @@ import PyamgV.Proofs.C20Spd
 import PyamgV.Proofs.ExtC20ElasticPD
 import PyamgV.Proofs.ExtC20Twin
 import PyamgV.Proofs.ExtC20SpectrumReal
+import PyamgV.Proofs.ExtC20CompThm
 
 /-! # C20 — gallery operators equal the discretisations they document
 
@@ -133,6 +134,86 @@ restate poisson_spectrum_rat := PyamgV.C20.poisson_spectrum_rat
 /-- executable 1-D residual form for every rational `c` -/
 restate poisson_1d_residual_rat := PyamgV.C20.poisson1d_residual_rat
 
+/-! ### extension E45: COMPLETENESS of the closed-form spectrum (the `prod grid` closed-form eigenpairs exhaust the
+spectrum, with multiplicities).  Real vectors; `ip n x y = Σ_{p<n} x_p y_p`; `kidx grid m` = the `m`-th index tuple
+`(k_1..k_N)`, `1 ≤ k_i ≤ g_i`, `m < prod grid` (row-major; executable twin `kidxQ`/`tuplesQ` run by the driver);
+`tuples grid` = all of them; `Vnd grid m` = the product eigenvector of `poisson_fd_spectrum_real` for `kidx grid m`;
+`eigFD grid ks = Σ_i (2 - 2 cos(k_i π/(g_i+1)))`, `eigFE grid ks = 3^N - Π_i (1 + 2 cos(k_i π/(g_i+1)))`;
+`toMat n M` = the real `n × n` matrix `(M i j)`, `fdR`/`feR grid` = the entries of the model's triple list cast to `ℝ`;
+`OrthoEigen n M V lam` = `M` symmetric, `V m` (`m < n`) pairwise orthogonal, not zero, `M (V m) = lam m · V m`. -/
+/-- the abstract statement used throughout: a symmetric matrix is self-adjoint, so eigenvectors for different
+eigenvalues are orthogonal -/
+restate symm_eigvec_orthogonal := PyamgV.C20.Comp.orth_of_ne
+/-- `n` pairwise orthogonal nonzero vectors of `ℝ^n` satisfy `Σ_m V_m(i) V_m(j) / ‖V_m‖² = δ_ij` (they are a basis) -/
+restate ortho_complete_rel := PyamgV.C20.Comp.complete_rel
+/-- index tuples: `kidx grid m` is a valid tuple for `m < prod grid` -/
+restate spectrum_index_valid := PyamgV.C20.Comp.kidx_valid
+/-- ... every valid tuple has a number `m < prod grid` -/
+restate spectrum_index_surj := PyamgV.C20.Comp.kidx_surj
+/-- ... exactly one -/
+restate spectrum_index_inj := PyamgV.C20.Comp.kidx_inj
+/-- `tuples grid` lists exactly the tuples `1 ≤ k_i ≤ g_i` -/
+restate spectrum_tuples_mem := PyamgV.C20.Comp.mem_tuples
+/-- ... each once -/
+restate spectrum_tuples_nodup := PyamgV.C20.Comp.tuples_nodup
+/-- ... `prod grid` of them: as many as the matrix has rows -/
+restate spectrum_tuples_length := PyamgV.C20.Comp.tuples_length
+/-- the executable enumeration the driver runs is `tuples` -/
+restate spectrum_tuplesQ_eq := PyamgV.C20.Comp.tuplesQ_eq
+/-- `Vnd grid m` is E21's product eigenvector of the index tuple `kidx grid m` -/
+restate spectrum_vector_eq := PyamgV.C20.Comp.Vnd_eq
+/-- 1-D: the closed-form eigenvalues `2 - 2 cos(k π/(n+1))` are strictly increasing in `k` (pairwise distinct) -/
+restate poisson_1d_eigenvalues_distinct := PyamgV.C20.Comp.poisson1d_eigenvalues_strictMono
+/-- 1-D: the Chebyshev vectors are an orthogonal eigenbasis of the model's `tridiag(-1,2,-1)` -/
+restate poisson_1d_orthobasis := PyamgV.C20.Comp.ortho1d_model
+/-- **1-D completeness**: every eigenvalue of the model's 1-D matrix (eigenvector not zero) is
+`2 - 2 cos(k π/(n+1))` for some `1 ≤ k ≤ n` -/
+restate poisson_1d_eigenvalue_complete := PyamgV.C20.Comp.poisson1d_eigenvalue_complete
+/-- **1-D: the closed-form eigenvectors span `ℝ^n`** (explicit coefficients `⟨v_k, x⟩ / ‖v_k‖²`) -/
+restate poisson_1d_span := PyamgV.C20.Comp.poisson1d_span
+/-- **1-D: geometric multiplicity one**: every eigenvector for `2 - 2 cos(k π/(n+1))` is a multiple of `v_k` -/
+restate poisson_1d_eigvec_unique := PyamgV.C20.Comp.poisson1d_eigvec_unique
+/-- **1-D characteristic polynomial** `= Π_{k=1..n} (X - (2 - 2 cos(k π/(n+1))))` -/
+restate poisson_1d_charpoly := PyamgV.C20.Comp.poisson1d_charpoly
+/-- **1-D: algebraic multiplicity one** -/
+restate poisson_1d_simple := PyamgV.C20.Comp.poisson1d_simple
+/-- N-D: `⟨u ⊗ w, u' ⊗ w'⟩ = ⟨u, u'⟩ ⟨w, w'⟩` -/
+restate tensor_inner_product := PyamgV.C20.Comp.ip_prod
+/-- N-D: the product vectors of different index tuples are orthogonal -/
+restate poisson_tensor_orthogonal := PyamgV.C20.Comp.poisson_tensor_orth
+/-- N-D: their squared norms are positive -/
+restate poisson_tensor_norm_pos := PyamgV.C20.Comp.poisson_tensor_norm_pos
+/-- N-D completeness relation `Σ_m V_m(i) V_m(j) / ‖V_m‖² = δ_ij` -/
+restate poisson_tensor_complete := PyamgV.C20.Comp.poisson_tensor_complete
+/-- **N-D: the `prod grid` product vectors span `ℝ^(prod grid)`** -/
+restate poisson_tensor_span := PyamgV.C20.Comp.poisson_tensor_span
+/-- **N-D: they are linearly independent** (so: a basis) -/
+restate poisson_tensor_linindep := PyamgV.C20.Comp.poisson_tensor_linindep
+/-- FD / FE: the product vectors are an orthogonal eigenbasis of the model's matrix -/
+restate poisson_fd_orthobasis := PyamgV.C20.Comp.fd_ortho
+restate poisson_fe_orthobasis := PyamgV.C20.Comp.fe_ortho
+/-- **N-D completeness, FD**: every eigenvalue of the model's matrix is `Σ_i (2 - 2 cos(k_i π/(g_i+1)))` for some
+index tuple -/
+restate poisson_fd_eigenvalue_complete := PyamgV.C20.Comp.poissonFD_eigenvalue_complete
+/-- **eigenspaces, FD**: every eigenvector for `mu` is a combination of the product vectors whose closed-form value
+is `mu` (which are linearly independent: geometric multiplicity = number of such tuples) -/
+restate poisson_fd_eigenspace := PyamgV.C20.Comp.poissonFD_eigenspace
+/-- **characteristic polynomial, FD** `= Π_tuples (X - eigFD)` -/
+restate poisson_fd_charpoly := PyamgV.C20.Comp.poissonFD_charpoly
+/-- **multiplicities, FD**: algebraic multiplicity of `mu` = number of index tuples with `eigFD grid ks = mu` -/
+restate poisson_fd_multiplicity := PyamgV.C20.Comp.poissonFD_multiplicity
+/-- **N-D completeness, FE**: every eigenvalue is `3^N - Π_i (1 + 2 cos(k_i π/(g_i+1)))` for some index tuple -/
+restate poisson_fe_eigenvalue_complete := PyamgV.C20.Comp.poissonFE_eigenvalue_complete
+/-- **eigenspaces, FE** -/
+restate poisson_fe_eigenspace := PyamgV.C20.Comp.poissonFE_eigenspace
+/-- **characteristic polynomial, FE** -/
+restate poisson_fe_charpoly := PyamgV.C20.Comp.poissonFE_charpoly
+/-- **multiplicities, FE** -/
+restate poisson_fe_multiplicity := PyamgV.C20.Comp.poissonFE_multiplicity
+/-- the matrices of the four statements above are the model's: entry `(i, j)` = `entry` of the triple list, cast -/
+restate poisson_fd_matrix_entries := PyamgV.C20.Comp.toMat_fd_apply
+restate poisson_fe_matrix_entries := PyamgV.C20.Comp.toMat_fe_apply
+
 /-! ## diffusion stencils -/
 /-- FE stencil sums to zero for every `eps` and every pair `(C, S)` -/
 restate diffusion2d_fe_sum_zero := PyamgV.C20.diffusion2dFE_sum
@@ -205,5 +286,14 @@ example : ∃ T, poisson [2, 3] true = some T := ⟨_, rfl⟩
 open PyamgV.C20 in
 example : List.Forall₂ (fun g k => 1 ≤ k ∧ k ≤ g) [4, 7] [4, 1] := by
   refine .cons ?_ (.cons ?_ .nil) <;> decide
+
+open PyamgV.C20 PyamgV.C20.Comp PyamgV.Stencil in
+/-- E45: the hypotheses of the completeness theorems are satisfiable (an eigenvector that is not zero) -/
+example : ∃ (mu : ℝ) (w : Nat → ℝ), (∃ p < prod [2, 3], w p ≠ 0) ∧
+    ∀ p < prod [2, 3], rowdotK (stencilGrid [2, 3] (poissonFD [2, 3].length)) w p = mu * w p :=
+  ⟨_, Vnd [2, 3] 4, ⟨0, by decide, by rw [Vnd_zero]; exact one_ne_zero⟩,
+    fun p hp => poissonFD_spectrum_real [2, 3] (kidx [2, 3] 4) (kidx_valid _ _ (by decide)) p hp⟩
+open PyamgV.C20.Comp in
+example : tuples [2, 3] = [[1, 1], [1, 2], [1, 3], [2, 1], [2, 2], [2, 3]] := by decide
 
 end PyamgV.Props.C20
